@@ -2830,10 +2830,11 @@ class LinearOperator(object):
         squeeze_row = False
         squeeze_col = False
         if isinstance(row_index, int):
-            row_index = slice(row_index, row_index + 1, None)
+            # (-1 + 1 would give the empty slice -1:0, so the last row needs an open upper bound)
+            row_index = slice(row_index, (row_index + 1) or None, None)
             squeeze_row = True
         if isinstance(col_index, int):
-            col_index = slice(col_index, col_index + 1, None)
+            col_index = slice(col_index, (col_index + 1) or None, None)
             squeeze_col = True
 
         # Call self._getitem - now that the index has been processed
